@@ -20,8 +20,14 @@ RULE = ('exact stream: every ordered pair of lattice points of a 9x8 grid around
         'random rationals. Float stream: the same structures on doubles, scale 1e-6..1e6, a third aimed through a '
         'corner, ulp-perturbed grazing; a far stream translated by 1e3..1e12 with extents 1e-6..1 (nearly vertical / '
         'horizontal segments 0..8 ulps wide with the clipped edge between the ends, corner-aimed); magnitudes up to '
-        '1e+-90. Sequence stream: every case again, consecutively, on long-lived segment/bounds list objects '
-        'overwritten in place (both / bounds only / segment only, blocks of 40). A case is non-trivial unless both '
+        '1e+-90; whole figures (dyadic lattice, structured and ordinary float cases) multiplied per axis by an exact power of '
+        'two, coordinates 2^-1000..2^1012 (biased to both ends of that range and to 2^+-490..560 where a product of two '
+        'lengths leaves the binary64 range), one in five with different exponents on the two axes (up to 2^600 apart). '
+        'Sequence stream: every case again, consecutively, on long-lived segment/bounds list objects '
+        'overwritten in place (both / bounds only / segment only, blocks of 40). Container stream: every case again with '
+        'the segment / its points / the bounds / their corners in tuples instead of lists (all-tuple, list of tuple points, '
+        'random mixtures) and, where the values coincide, ONE point object for both ends of the segment or for a segment end '
+        'and a corner of the bounds; judged against the values passed. A case is non-trivial unless both '
         'ends are inside; distinct by (stream, segment, bounds)')
 TRUSTED = ['hand-written model C08.clipSegment tied to plot_utils.clip_segment by exact differential execution on '
            'Fractions (accept flag, both endpoints, pass count) in this run',
@@ -34,6 +40,14 @@ ASSUMPTIONS = ['coordinates are finite numbers; rectangle has x_min <= x_max and
                'out_of_domain_differences); generated magnitudes 1e-90 .. 1e90; tolerance 1e-9*scale with scale = largest '
                'absolute input coordinate (measured worst deviation of the unchanged code, 8.5e5 cases incl. 3e5 translated by '
                '1e3..1e12: 3.4e-16*scale)',
+               'float stream, additionally: figures of comparable coordinates at any magnitude - per axis every non-zero coordinate '
+               'and every non-zero gap between two coordinates (segment ends and rectangle sides together) within [2^-1000, 2^1012] '
+               'and within a factor 2^100 of each other, across the two axes within a factor 2^700 (so neither the differences nor '
+               'the slope quotient nor its product with a difference can leave the normal binary64 range); same oracle and '
+               'tolerance (measured worst deviation of the unchanged code on 1.8e5 such figures: 2.5e-16*scale)',
+               'the segment, its points, the bounds and their corners may be any mixture of lists and tuples, and one point object '
+               'may occur twice in a call (the statement speaks of a segment and a rectangle, the docstring writes them as nested '
+               'lists; the unchanged code only reads them by index)',
                'the statement is silent about the argument lists and about earlier results: a call that modifies its arguments '
                'or the object returned by an earlier call is reported as a model/implementation disagreement, not a violation']
 STAGED = []
@@ -202,15 +216,33 @@ class Impl:
         call, overwritten in place with this case's numbers (the other one is a fresh list); afterwards
         `self.input_modified` tells whether the call changed its arguments and `self.prev_result_changed` whether
         the object returned by the PREVIOUS call (when it was not one of that call's own arguments) has changed"""
-        self.calls = 0
-        self.input_modified = None
-        self.prev_result_changed = None
         a_seg = self.seg_obj if 's' in reuse else [list(seg[0]), list(seg[1])]
         a_b = self.bnd_obj if 'b' in reuse else [list(b[0]), list(b[1])]
         for i in (0, 1):
             for j in (0, 1):
                 a_seg[i][j] = seg[i][j]
                 a_b[i][j] = b[i][j]
+        return self._call(a_seg, a_b, seg, b)
+
+    def run_shaped(self, seg, b, shape, alias=''):
+        """the same call with other argument CONTAINERS (the statement speaks of a segment and a rectangle, not of lists).
+        shape: six letters 'l' (list) / 't' (tuple) for: the segment, its first point, its second point, the bounds,
+        their first corner, their second corner.
+        alias: '' | 'pp' - both ends of the segment are ONE point object (needs equal ends) | 's<i>c<j>' - end i of the
+        segment IS the object that is corner j of the bounds (needs equal coordinates).  Judged against the values passed."""
+        mk = lambda kind, vals: list(vals) if kind == 'l' else tuple(vals)      # noqa: E731
+        pts = [mk(shape[1], seg[0]), mk(shape[2], seg[1])]
+        cor = [mk(shape[4], b[0]), mk(shape[5], b[1])]
+        if alias == 'pp':
+            pts[1] = pts[0]
+        elif alias:
+            pts[int(alias[1])] = cor[int(alias[3])]
+        return self._call(mk(shape[0], pts), mk(shape[3], cor), seg, b)
+
+    def _call(self, a_seg, a_b, seg, b):
+        self.calls = 0
+        self.input_modified = None
+        self.prev_result_changed = None
         ids = (id(a_seg), id(a_seg[0]), id(a_seg[1]), id(a_b), id(a_b[0]), id(a_b[1]))
         self.pu.clip_code = self.counted
         try:
@@ -516,6 +548,110 @@ def float_wide_case(rng):
     return [[v * m for v in p] for p in seg], [[v * m for v in p] for p in bb]
 
 
+# ---- figures scaled as a whole by an exact power of two --------------------------------------------------------
+# A figure (segment AND rectangle) whose coordinates are of comparable size is multiplied, per axis, by 2^k.  Binary64
+# arithmetic commutes with multiplication by a power of two as long as nothing overflows or becomes subnormal, so
+# any formula that is sound at everyday magnitudes and keeps its intermediate values of the size of its inputs and
+# results (differences, quotient of differences, quotient times a difference no longer than the divisor) gives the
+# scaled result of the unscaled figure.  A formula with an intermediate value of a different DIMENSION (a product or
+# a square of two lengths, a reciprocal of a length, an absolute epsilon) overflows / underflows / stops being
+# negligible here although the inputs and the true result are comfortably representable.
+HOMOG_MAX = 2.0 ** 1012        # largest coordinate magnitude (the largest double is just under 2^1024)
+HOMOG_MIN = 2.0 ** -1000       # smallest non-zero coordinate / coordinate gap (the smallest normal double is 2^-1022)
+HOMOG_RATIO = 2.0 ** 100       # per axis: largest coordinate / smallest non-zero coordinate or gap
+HOMOG_CROSS = 2.0 ** 700       # across the axes (bounds the slope quotient and its reciprocal: no overflow / underflow)
+
+
+def axis_extent(s, b, a):
+    """(largest magnitude, smallest non-zero magnitude among the coordinates and their pairwise gaps) on axis a"""
+    vals = [s[0][a], s[1][a], b[0][a], b[1][a]]
+    big = max(abs(v) for v in vals)
+    small = [abs(v) for v in vals if v != 0] + [abs(u - v) for i, u in enumerate(vals) for v in vals[:i] if u != v]
+    return big, (min(small) if small else None)
+
+
+def homogeneous(s, b):
+    """domain of the power-of-two stream: on each axis the non-zero coordinates and gaps lie within a factor 2^100 of
+    each other and within [2^-1000, 2^1012]; across the axes within a factor 2^700"""
+    ext = [axis_extent(s, b, 0), axis_extent(s, b, 1)]
+    for i, (big, small) in enumerate(ext):
+        if not math.isfinite(big) or big > HOMOG_MAX:
+            return False
+        if small is None:
+            continue
+        if small < HOMOG_MIN or big > small * HOMOG_RATIO:
+            return False
+        obig = ext[1 - i][0]
+        if obig > small * HOMOG_CROSS:
+            return False
+    return True
+
+
+def in_float_domain(s, b):
+    if not (b[0][0] <= b[1][0] and b[0][1] <= b[1][1]):
+        return False
+    if not all(math.isfinite(v) for p in s + b for v in p):
+        return False
+    return all(v == 0 or FLOAT_MIN <= abs(v) <= FLOAT_MAX for p in s + b for v in p) or homogeneous(s, b)
+
+
+def _exp_range(big, small):
+    """the exponents k for which big*2^k <= HOMOG_MAX and small*2^k >= HOMOG_MIN"""
+    return -1000 - (math.frexp(small)[1] - 1), 1012 - math.frexp(big)[1]
+
+
+def _pick_exp(rng, lo, hi):
+    z = rng.random()
+    if z < 0.3:
+        return rng.randint(max(lo, hi - 80), hi)          # near the top of the range
+    if z < 0.6:
+        return rng.randint(lo, min(hi, lo + 80))          # near the bottom
+    if z < 0.8:
+        # around the square root of the range limits, where a product of two lengths starts to leave the range
+        c = rng.choice([-560, -540, -520, -505, -490, 490, 505, 512, 520, 540])
+        return min(hi, max(lo, c + rng.randint(-12, 12)))
+    return rng.randint(lo, hi)
+
+
+def float_pow2_case(rng):
+    """an everyday figure (dyadic lattice / structured / ordinary float case) times 2^kx on the x axis and 2^ky on the
+    y axis (kx == ky in four cases of five), |k| up to about 1000; None when the base figure is not homogeneous"""
+    z = rng.random()
+    if z < 0.4:
+        # dyadic base: every coordinate a small multiple of 1/8 (intersections often exactly representable)
+        (p, q), b = structured_case(rng)
+        den = rng.choice([1, 2, 8])
+        cv = lambda v: float(round(v * den)) / den                  # noqa: E731
+        seg = [[cv(p[0]), cv(p[1])], [cv(q[0]), cv(q[1])]]
+        bb = [[cv(b[0][0]), cv(b[0][1])], [cv(b[1][0]), cv(b[1][1])]]
+    elif z < 0.7:
+        (p, q), b = structured_case(rng)
+        seg = [[float(p[0]), float(p[1])], [float(q[0]), float(q[1])]]
+        bb = [[float(b[0][0]), float(b[0][1])], [float(b[1][0]), float(b[1][1])]]
+    else:
+        seg, bb = float_case(rng)
+    ex, ey = axis_extent(seg, bb, 0), axis_extent(seg, bb, 1)
+    if ex[1] is None and ey[1] is None:
+        return None
+    ref = [e for e in (ex, ey) if e[1] is not None]
+    lo = max(_exp_range(*e)[0] for e in ref)
+    hi = min(_exp_range(*e)[1] for e in ref)
+    if lo > hi:
+        return None
+    kx = ky = _pick_exp(rng, lo, hi)
+    if rng.random() < 0.2:
+        # anisotropic: the other axis up to 2^600 away (a product of an x length and a y length then leaves the range
+        # although both axes are far from its ends)
+        ky = min(hi, max(lo, kx + rng.choice([-1, 1]) * rng.randint(1, 600)))
+        if rng.random() < 0.5:
+            kx, ky = ky, kx
+    sc = lambda pts: [[math.ldexp(pt[0], kx), math.ldexp(pt[1], ky)] for pt in pts]       # noqa: E731
+    seg, bb = sc(seg), sc(bb)
+    if not (bb[0][0] <= bb[1][0] and bb[0][1] <= bb[1][1]) or not homogeneous(seg, bb):
+        return None
+    return seg, bb
+
+
 # ----------------------------------------------------------------------------------------------
 def enc_case(stream, seg, b):
     if stream == 'float':
@@ -532,8 +668,72 @@ def dec_case(d):
     return d.get('stream', 'exact'), seg, b
 
 
+SHAPE_NAMES = {'l': 'list', 't': 'tuple'}
+
+
+def pick_shape(rng, seg, b):
+    """(shape, alias) for Impl.run_shaped: never all lists without aliasing (that is the ordinary call)"""
+    z = rng.random()
+    if z < 0.25:
+        shape = 'tttttt'
+    elif z < 0.45:
+        shape = 'lttlll'                 # a list of two (x, y) tuples, ordinary bounds
+    elif z < 0.55:
+        shape = 'tlltll'
+    elif z < 0.65:
+        shape = rng.choice(['lllltt', 'llltll', 'lllttt', 'ltllll', 'lltlll'])
+    else:
+        shape = ''.join(rng.choice('lt') for _ in range(6))
+    alias = ''
+    can = (['pp'] if list(seg[0]) == list(seg[1]) else []) + \
+        [f's{i}c{j}' for i in (0, 1) for j in (0, 1) if list(seg[i]) == list(b[j])]
+    if can and rng.random() < 0.7:
+        alias = rng.choice(can)
+        if rng.random() < 0.5:
+            shape = 'llllll'            # shared LIST objects: writable through either name
+    elif shape == 'llllll':
+        shape = 'lltlll' if rng.random() < 0.5 else 'ltllll'
+    return norm_shape(shape, alias), alias
+
+
+def norm_shape(shape, alias):
+    """the shape letters as they are after aliasing (the shared object has one container type)"""
+    sh = list(shape)
+    if alias == 'pp':
+        sh[2] = sh[1]
+    elif alias:
+        sh[1 + int(alias[1])] = sh[4 + int(alias[3])]
+    return ''.join(sh)
+
+
+def describe_shape(shape, alias):
+    d = {'containers': {'segment': SHAPE_NAMES[shape[0]], 'points': [SHAPE_NAMES[shape[1]], SHAPE_NAMES[shape[2]]],
+                        'bounds': SHAPE_NAMES[shape[3]], 'corners': [SHAPE_NAMES[shape[4]], SHAPE_NAMES[shape[5]]]},
+         'shape': shape}
+    if alias == 'pp':
+        d['aliasing'] = 'both ends of the segment are the same point object'
+    elif alias:
+        d['aliasing'] = f'end {int(alias[1]) + 1} of the segment is the same object as corner {int(alias[3]) + 1} of the bounds'
+    if alias:
+        d['alias'] = alias
+    return d
+
+
+def case_key(inp):
+    return json.dumps([inp.get('stream'), inp.get('segment'), inp.get('bounds')])
+
+
+def note_forced(ctx, inp):
+    """a case recorded with its argument containers (container stream): run it again with the same containers / aliasing"""
+    if isinstance(inp.get('shape'), str) and len(inp['shape']) == 6 and set(inp['shape']) <= set('lt'):
+        alias = str(inp.get('alias') or '')
+        if alias in ('', 'pp', 's0c0', 's0c1', 's1c0', 's1c1'):
+            ctx._c08_forced.setdefault(case_key(inp), []).append((norm_shape(inp['shape'], alias), alias))
+
+
 def load_corpus(ctx):
     cases = []
+    ctx._c08_forced = {}
     d = os.path.join(VERIF, 'corpus', 'C08')
     files = sorted(os.path.join(d, f) for f in os.listdir(d)) if os.path.isdir(d) else []
     for path in files:
@@ -541,7 +741,9 @@ def load_corpus(ctx):
             for line in open(path):
                 line = line.strip()
                 if line and not line.startswith('#'):
-                    cases.append(dec_case(json.loads(line)))
+                    d = json.loads(line)
+                    cases.append(dec_case(d))
+                    note_forced(ctx, d)
     rp = getattr(ctx, 'replay', None)
     if rp and os.path.exists(rp):
         payload = json.load(open(rp))
@@ -551,6 +753,7 @@ def load_corpus(ctx):
                 if isinstance(inp.get('previous'), dict) and 'segment' in inp['previous']:
                     cases.append(dec_case(inp['previous']))
                 cases.append(dec_case(inp))
+                note_forced(ctx, inp)
     return cases
 
 
@@ -592,6 +795,12 @@ def run(ctx):
     n_far = len(float_cases)
     for _ in range(nfar // 12):
         float_cases.append(float_wide_case(rng))
+    n_wide = len(float_cases)
+    for _ in range(ctx.n(int(os.environ.get('C08_NPOW2', '2500')))):
+        c = float_pow2_case(rng)
+        if c is not None:
+            float_cases.append(c)
+    n_pow2 = len(float_cases)
     # one out-of-domain probe, logged only: an endpoint outside a boundary by a subnormal amount
     float_cases.append(([[-0.0002, -2.5e-323], [-0.00016, 0.0]], [[-0.0003, 0.0], [-0.0001, 0.0002]]))
 
@@ -629,9 +838,49 @@ def run(ctx):
         for what, obs, req in judge(fs, fb, res2[1], [[F(v) for v in p] for p in res2[2]], tol):
             ctx.violate(what, sinp, f'{obs}; returned {show_out(res2)}', req)
 
+    # ---- containers: every case is run once more with the segment / its points / the bounds / their corners held in
+    # tuples instead of lists (a random mixture; all-tuple and list-of-tuple-points most often), and - where the values
+    # coincide - with ONE point object used for both ends of the segment or for a segment end and a corner of the bounds.
+    # The statement speaks of a segment and a rectangle, not of their containers: same oracle, values as passed.
+    nshape = [0, 0, 0]
+    forced = getattr(ctx, '_c08_forced', {})
+
+    def shaped_call(ns, nb, fs, fb, tol, res, inp, shape, alias):
+        res2 = impl.run_shaped(ns, nb, shape, alias)
+        nshape[0] += 1
+        nshape[2] += bool(alias)
+        if res2 == res and not impl.input_modified and not impl.prev_result_changed:
+            return
+        sinp = {**inp, **describe_shape(shape, alias)}
+        if impl.input_modified:
+            ctx.disagree('clip_segment modified its arguments', sinp, impl.input_modified, 'arguments unchanged')
+        if impl.prev_result_changed:
+            ctx.disagree('the segment object returned by the previous call was changed by this call', sinp,
+                         impl.prev_result_changed, 'earlier results unchanged')
+        if res2 == res:
+            return
+        nshape[1] += 1
+        ctx.disagree('clip_segment on tuple / shared argument containers differs from the same call on fresh lists', sinp,
+                     show_out(res2), show_out(res))
+        if res2[0] == 'raise':
+            ctx.violate('clip_segment raised or did not return', sinp, res2[1], 'a result (accept flag, segment)',
+                        key='raises')
+            return
+        for what, obs, req in judge(fs, fb, res2[1], [[F(v) for v in p] for p in res2[2]], tol):
+            ctx.violate(what, sinp, f'{obs}; returned {show_out(res2)}', req)
+
+    def run_shapes():
+        for item in pending:
+            ns, nb, inp = item[0], item[1], item[6]
+            todo = list(forced.get(case_key(inp), ())) if forced else []
+            todo.append(pick_shape(rng, ns, nb))
+            for shape, alias in todo:
+                shaped_call(*item, shape, alias)
+
     def run_sequences():
         """consecutive calls on the long-lived objects, no fresh-object call in between; blocks of 40 calls cycle
         through: both arguments reused / only the bounds (one rectangle, many segments) / only the segment"""
+        run_shapes()
         for i, item in enumerate(pending):
             sequence_call(*item, ('sb', 'b', 's')[(i // 40) % 3])
         pending.clear()
@@ -705,12 +954,12 @@ def run(ctx):
     nfs = 0
     over5 = 0
     for idx, (s, b) in enumerate(float_cases):
-        grp = 'float' if idx < n_near else 'far' if idx < n_far else 'wide'
+        grp = 'float' if idx < n_near else 'far' if idx < n_far else 'wide' if idx < n_wide else 'pow2' if idx < n_pow2 else 'probe'
         s = [[float(v) for v in p] for p in s]; b = [[float(v) for v in p] for p in b]
-        if not (b[0][0] <= b[1][0] and b[0][1] <= b[1][1]) or \
-                not all(v == 0 or FLOAT_MIN <= abs(v) <= FLOAT_MAX for p in s + b for v in p):
+        if not in_float_domain(s, b):
             ctx.out_of_domain.append({**enc_case('float', s, b), 'observed': show_out(impl.run(s, b)),
-                                      'why': 'coordinate magnitudes outside [1e-100, 1e100]: the slope quotient can overflow'})
+                                      'why': 'coordinate magnitudes outside [1e-100, 1e100] and not a figure of comparable '
+                                             'coordinates and gaps within [2^-1000, 2^1012]: the slope quotient can overflow'})
             continue
         inp = enc_case('float', s, b)
         res = impl.run(s, b)
@@ -738,7 +987,7 @@ def run(ctx):
             mm = {}
             bad = judge(fs, fb, acc, fout, tol, mm)
             for k, v in mm.items():
-                rel = float(v) / float(scale) if not k.endswith('2') else math.sqrt(float(v)) / float(scale)
+                rel = float(v / scale) if not k.endswith('2') else math.sqrt(float(v / (scale * scale)))
                 if rel > metrics.get(f'float {grp} ' + k, (0, None))[0]:
                     metrics[f'float {grp} ' + k] = (rel, inp)
         else:
@@ -750,8 +999,12 @@ def run(ctx):
     run_sequences()
     ctx.notes.append(f'sequence stream: {nseq[0]} calls on reused, in-place overwritten argument objects; {nseq[1]} differed '
                      f'from the fresh-object call; {nseq[2]} modified their arguments')
+    ctx.notes.append(f'container stream: {nshape[0]} calls with tuple / mixed tuple-list argument containers ({nshape[2]} with one '
+                     f'point object shared between the two ends or between an end and a corner of the bounds); {nshape[1]} differed '
+                     f'from the call on fresh lists')
     ctx.notes.append(f'float stream: {len(float_cases)} cases ({n_near} ordinary, {n_far - n_near} translated by 1e3..1e12, '
-                     f'{len(float_cases) - n_far} at magnitudes up to 1e+-90), {nfs} returned through the iterations>3 failsafe; '
+                     f'{n_wide - n_far} at magnitudes up to 1e+-90, {n_pow2 - n_wide} figures scaled as a whole by 2^k per axis, '
+                     f'coordinates 2^-1000..2^1012), {nfs} returned through the iterations>3 failsafe; '
                      f'{over5} needed more than 5 loop passes; tolerance 1e-9*scale')
     if measure:
         ctx.notes.append('measured worst deviations relative to scale: ' +
